@@ -11,9 +11,8 @@
 (*   end   the open shuttermint block was closed                           *)
 (*   fin   end of the run after the fair continuation                      *)
 (* pass A  viol : <<line, monitor>> for every monitor of KeyperGovProps    *)
-(*                that is false on the OBSERVED line (G1 G2 G3 G4) and is  *)
-(*                not explained by a known finding; known: the explained   *)
-(*                ones, tagged "<monitor>@<finding>"                       *)
+(*                that is false on the OBSERVED line (G1 G2 G3 G4);        *)
+(*         known: <<line, name>> observations (KeyperGovProps!GObs)        *)
 (* pass B  drift: <<line, what>> where the observed databases are not what *)
 (*                the code-shaped spec KeyperGov computes from the         *)
 (*                observed pre-state                                       *)
@@ -72,13 +71,13 @@ TNext ==
          [] ln.k = "iter" ->
               /\ viol' = viol \cup {<<l, m>> : m \in GFailed(g, ln)}
                               \cup (IF ln.panic = "" THEN {} ELSE {<<l, "G0_NoPanic">>})
-              /\ known' = known \cup {<<l, m>> : m \in GKnown(g, ln)}
+              /\ known' = known \cup {<<l, m>> : m \in GObs(g, ln)}
               /\ drift' = drift \cup {<<l, d>> : d \in IterDrift(ln, kps[ln.a])}
               /\ g' = GGhostNext(g, ln)
               /\ kps' = [kps EXCEPT ![ln.a] = ln.s3]
          [] ln.k = "fin" ->
               /\ viol' = viol \cup {<<l, m>> : m \in GFailed(g, ln)}
-              /\ known' = known \cup {<<l, m>> : m \in GKnown(g, ln)}
+              /\ known' = known \cup {<<l, m>> : m \in GObs(g, ln)}
               /\ drift' = drift \cup (IF \A a \in ToSet(ln.live) : ln.kps[a] = kps[a] THEN {} ELSE {<<l, "continuity">>})
               /\ UNCHANGED <<g, kps>>
          [] OTHER ->
